@@ -91,8 +91,8 @@ Proof. exact utf8_roundtrip. Qed.
 
 (* date-time TLV: every calendar date-time with a year 0..9999 (leap years, month lengths, 00:00:00..23:59:59) *)
 Theorem C17_datetime_roundtrip : forall (y : Z) (mo d h mi s : N),
-  (0 <= y <= 9999)%Z -> ymd_ok y mo d = true -> hms_ok h mi s = true ->
-  exists bs, datetime_enc y mo d h mi s = Ok bs /\ datetime_dec bs = Ok (VDate y mo d h mi s, []) /\ blen bs <= 13.
+  (0 <= y)%Z -> ymd_ok y mo d = true -> hms_ok h mi s = true ->
+  exists bs, datetime_enc y mo d h mi s = Ok bs /\ datetime_dec bs = Ok (VDate y mo d h mi s, []) /\ blen bs <= 14.
 Proof. exact datetime_roundtrip. Qed.
 
 Example C17_ex_leap_day : exists bs, datetime_enc 2024 2 29 23 59 58 = Ok bs /\
